@@ -966,6 +966,76 @@ def _task_decorator_facts():
 
 
 # ------------------------------------------------------------------------------------------------
+# debugging.py: the wrappers put around task.function by pdb=True / trace=True
+# ------------------------------------------------------------------------------------------------
+
+def _debug_wrapper(name: str):
+    """(calls the task function with *args/**kwargs exactly once per path, returns that call's result on every normal exit,
+    re-raises in every handler, installs itself as task.function)"""
+    outer = _func("debugging.py", name)
+    inner = [n for n in outer.body if isinstance(n, ast.FunctionDef)]
+    if len(inner) != 1:
+        raise _err(f"{name}: expected one inner wrapper")
+    w = inner[0]
+    if not (w.args.vararg and w.args.kwarg) or w.args.args or w.args.kwonlyargs:
+        raise _err(f"{name}: the wrapper's signature is not (*args, **kwargs)")
+    va, kw = w.args.vararg.arg, w.args.kwarg.arg
+    fvars = [k for k, v in Env(outer).val.items() if _u(v) == "task.function"]
+    if len(fvars) != 1:
+        raise _err(f"{name}: the wrapped function is not bound to one local")
+    fv = fvars[0]
+    env = Env(w)
+
+    def is_call(n):
+        n = env.res(n)
+        if not isinstance(n, ast.Call):
+            return False
+        star = [a for a in n.args if isinstance(a, ast.Starred)]
+        dstar = [k for k in n.keywords if k.arg is None]
+        if len(star) != 1 or _u(star[0].value) != va or len(dstar) != 1 or _u(dstar[0].value) != kw or len(n.keywords) != 1:
+            return False
+        plain = [a for a in n.args if not isinstance(a, ast.Starred)]
+        if isinstance(n.func, ast.Name) and n.func.id == fv and not plain:
+            return True
+        return _callee(n) == "runcall" and len(plain) == 1 and _u(plain[0]) == fv and n.args.index(plain[0]) == 0
+    calls = [n for n in _walk(w) if isinstance(n, ast.Call) and is_call(n) and not isinstance(n, ast.Name)]
+    calls = [n for n in _walk(w) if isinstance(n, ast.Call) and is_call(n)]
+    passes = len(calls) == 1
+    returns = [n for n in _walk(w) if isinstance(n, ast.Return)]
+
+    def ends_with_return(stmts):
+        if not stmts:
+            return False
+        last = stmts[-1]
+        if isinstance(last, ast.Return):
+            return True
+        if isinstance(last, ast.Try):
+            return ends_with_return(last.body) and all(ends_with_return(h.body) or isinstance(h.body[-1], ast.Raise) for h in last.handlers) \
+                and not last.finalbody
+        return False
+    def returned_value(r):
+        """the expression a `return x` hands back: for a local, its last plain assignment before the return in the same block"""
+        v = r.value
+        if isinstance(v, ast.Name):
+            for blk in [n.body for n in _walk(w) if hasattr(n, "body") and isinstance(getattr(n, "body"), list)] + [w.body]:
+                if r in blk:
+                    for st in reversed(blk[:blk.index(r)]):
+                        tg = [t for t in getattr(st, "targets", [])] if isinstance(st, ast.Assign) else []
+                        names = {x.id for t in tg for x in ast.walk(t) if isinstance(x, ast.Name)}
+                        if v.id in names:
+                            return st.value if len(tg) == 1 and isinstance(tg[0], ast.Name) else None
+                        if any(isinstance(x, ast.Name) and x.id == v.id and isinstance(x.ctx, ast.Store) for x in ast.walk(st)):
+                            return None
+        return v
+    returns_result = bool(returns) and all(r.value is not None and returned_value(r) is not None and is_call(returned_value(r))
+                                           for r in returns) and ends_with_return(w.body)
+    handlers = [h for n in _walk(w) if isinstance(n, ast.Try) for h in n.handlers]
+    reraises = all(isinstance(h.body[-1], ast.Raise) and h.body[-1].exc is None for h in handlers)
+    installs = any(isinstance(st, ast.Assign) and _u(st.targets[0]) == "task.function" and _u(st.value) == w.name for st in outer.body)
+    return passes, returns_result, reraises, installs
+
+
+# ------------------------------------------------------------------------------------------------
 # tree_util.py wrappers
 # ------------------------------------------------------------------------------------------------
 
@@ -1019,6 +1089,14 @@ deriving Repr, DecidableEq
 /-- how a misfit of the returned value is detected: `is_prefix(…, strict=False/True)` before, or only by `flatten_up_to` raising -/
 inductive PrefixTest | explicit | explicitStrict | viaFlatten
 deriving Repr, DecidableEq
+/-- a wrapper around the task function: calls it with `*args, **kwargs`; returns the call's result on every normal exit; every
+`except` ends with a bare `raise`; is installed as `task.function` -/
+structure Wrap where
+  passesArguments : Bool
+  returnsResult : Bool
+  reraises : Bool
+  installed : Bool
+deriving Repr, DecidableEq
 /-- one source of keyword arguments: the `is_product` flag of the load and whether the `name in parameters` guard applies -/
 structure KwSrc where
   isProduct : Bool
@@ -1036,6 +1114,10 @@ def argsgen_section() -> list[str]:
     x, g = _execute_facts(), _generator_facts()
     tw = _tree_wrappers()
     meta_existing, meta_created = _task_decorator_facts()
+    wpm, wtr = _debug_wrapper("wrap_function_for_post_mortem_debugging"), _debug_wrapper("wrap_function_for_tracing")
+
+    def wrap(t):
+        return "⟨" + ", ".join(b(x) for x in t) + "⟩"
 
     def pairs(xs):
         return "[" + ", ".join(f"({h.lean_str(a)}, {h.lean_str(v)})" for a, v in xs) + "]"
@@ -1094,6 +1176,9 @@ def argsgen_section() -> list[str]:
         "carries `pytask_meta` (a `@pytask.mark.*` was applied first) and in the branch that creates `CollectionMetadata`. -/",
         f"def taskMetaExisting : List (String × String) := {pairs(meta_existing)}",
         f"def taskMetaCreated : List (String × String) := {pairs(meta_created)}",
+        "/-- `debugging.py`: the wrappers installed as `task.function` by `pdb=True` / `trace=True`. -/",
+        f"def wrapPostMortem : Wrap := {wrap(wpm)}",
+        f"def wrapTracing : Wrap := {wrap(wtr)}",
         "/-- `tree_util.py`: wrapper ↦ (optree function, `none_is_leaf`), sorted by name. -/",
         "def treeWrappers : List (String × String × Bool) := [" + ", ".join(f"({h.lean_str(a)}, {h.lean_str(f)}, {b(n)})" for a, f, n in tw) + "]",
         "end Args",
